@@ -2,6 +2,11 @@
 From Verif Require Import Base.Prelude Model.Correlogram Proofs.BaseLemmas.
 From Coq Require Import ZifyBool QArith.
 Open Scope Z_scope.
+Local Arguments Z.mul : simpl never.
+Local Arguments Z.add : simpl never.
+Local Arguments Z.sub : simpl never.
+Local Arguments Z.opp : simpl never.
+Local Arguments Z.of_nat : simpl never.
 
 (* ---------- generic count_if lemmas ---------- *)
 Lemma cnt_app {A} (p : A -> bool) l1 l2 : count_if p (l1 ++ l2) = (count_if p l1 + count_if p l2)%nat.
@@ -103,7 +108,7 @@ Proof.
       rewrite Forall_forall in *. intros x Hx. specialize (F1 x Hx). specialize (HF' x Hx).
       unfold binq. simpl. lia.
   - rewrite <- seq_shift, map_map. apply map_ext. intros j.
-    rewrite E at 2. rewrite cnt_app. rewrite (cnt_none _ tk).
+    rewrite E. rewrite cnt_app. rewrite (cnt_none _ tk).
     + simpl. apply cnt_ext. apply Forall_forall. intros x _. unfold binq.
       replace (Z.of_nat (S j)) with (Z.of_nat j + 1) by lia. lia.
     + eapply Forall_impl; [|exact F1]. unfold binq. simpl. intros a Ha.
@@ -157,7 +162,7 @@ Proof.
   - simpl. apply map_ext. intros j. unfold lag_count. simpl. lia.
   - simpl fold_left. unfold xrow at 2. rewrite xc_add_map. rewrite IH.
     apply map_ext. intros j. unfold lag_count. simpl list_prod. rewrite cnt_app, cnt_map.
-    rewrite (cnt_ext (binq b (2 * r - wd) j) (fun x => lag_in _ _ (r, x))); [lia|].
+    rewrite (cnt_ext (binq b (2 * r - wd) j) (fun x => lag_in (- wd + 2 * Z.of_nat j * b) (- wd + 2 * (Z.of_nat j + 1) * b) (r, x))); [lia|].
     apply Forall_forall. intros x _. apply binq_lag_in.
 Qed.
 
@@ -278,7 +283,7 @@ Proof.
         apply Z.mul_eq_0 in H0. lia.
       + intros ->. rewrite Z2Nat.id by lia. ring.
     - lia.
-    - rewrite Hr. simpl. reflexivity. }
+    - rewrite Hr. simpl. rewrite Nat.sub_0_r. reflexivity. }
   split; [exact E|]. split.
   - rewrite E. apply nth_zero_at.
   - unfold xcorr_centres2. cbv zeta. rewrite xc_nbins_odd by assumption.
